@@ -42,6 +42,23 @@ def run(ctx, res):
     for g in prog.unit_funcs(W):
         for n, lhs in field_stores(g, "data_block", "crc"):
             crc_defs.append((g, n))
+    # a checksum kept in a local instead of the record (and written from there as raw bytes): same byte-order obligation
+    crc_locals = []
+    for g in prog.unit_funcs(W):
+        for n in walk(g.body):
+            if n["k"] == "DeclStmt":
+                for d in n["decls"]:
+                    if d.get("init") is not None and any(x["k"] == "CallExpr" and x.get("callee") == "mtbl_crc32c" for x in walk(d["init"])):
+                        crc_locals.append((g, d["init"], n))
+            elif n["k"] == "BinaryOperator" and n.get("op") == "=" and strip(n["kids"][0])["k"] == "DeclRefExpr" and strip(n["kids"][0]).get("dk") == "local" \
+                    and any(x["k"] == "CallExpr" and x.get("callee") == "mtbl_crc32c" for x in walk(n["kids"][1])):
+                crc_locals.append((g, n["kids"][1], n))
+    for g, rhs_, n_ in crc_locals:
+        le_ = "htole32" in g.macros(strip(rhs_)) or any("htole32" in g.macros(x) for x in walk(rhs_))
+        modes_ = framerule.crc_mode(ctx)
+        res.check((le_ and modes_ == {"raw"}) or (not le_ and modes_ == {"encoded"}), "C09.R2", site(g, "crc-little-endian:local"),
+                  "checksum little-endian before it is written as raw bytes (or host order and encoded where it is written)",
+                  "checksum is written in host byte order", g.loc(n_))
     res.floor("C09.R2", 4)
     for g, n in crc_defs:
         rhs = strip(n["kids"][1])
@@ -404,5 +421,5 @@ def _crc_definitely_assigned(ctx, res):
                       "the pool's work function stores the checksum of every block it returns",
                       "the pool's work function %s returns a block on some path without having stored its checksum: the result callback writes "
                       "garbage checksum bytes for those blocks" % name, g.loc(c))
-    if nsite < 3:
+    if nsite < 2:
         raise BrokenAnalysis("checksum definite-assignment rule found %d block hand-over sites, expected at least 3" % nsite)
